@@ -149,6 +149,35 @@ def run_z3(text, timeout, seed=0):
     return th.result
 
 
+def run_z3_cli(text, timeout):
+    """z3 as a separate process (the regex solver can ignore in-process timeouts): killed at the deadline."""
+    f = tempfile.NamedTemporaryFile("w", suffix=".smt2", delete=False)
+    f.write(text + "\n(get-model)\n" if "(check-sat)" in text else text + "\n(check-sat)\n(get-model)\n")
+    f.close()
+    t0 = time.time()
+    try:
+        try:
+            p = subprocess.run(["z3-new", "-smt2", "-T:%d" % int(timeout), f.name], capture_output=True, text=True,
+                               timeout=timeout + 5)
+            out = p.stdout
+        except subprocess.TimeoutExpired:
+            return ("unknown", time.time() - t0, None, "z3 process killed at the deadline")
+        first = out.strip().splitlines()[0].strip() if out.strip() else "unknown"
+        if first not in ("sat", "unsat"):
+            return ("unknown", time.time() - t0, None, out[:200])
+        model = None
+        if first == "sat":
+            model = {}
+            for m in re.finditer(r'\(define-fun ([^ ]+) \(\) String\s+"((?:[^"]|"")*)"\)', out):
+                model[m.group(1)] = '"' + m.group(2) + '"'
+        return (first, time.time() - t0, model, "")
+    finally:
+        try:
+            os.unlink(f.name)
+        except OSError:
+            pass
+
+
 def solve_text(task):
     """QF text only (used for regex obligations): z3 quick, then z3 || cvc5."""
     return _race(task["name"], None, task["text"], z3_only=task.get("z3_only", False), budgets=task)
@@ -210,6 +239,13 @@ def _race(name, qtext, qf_builder, z3_only=False, budgets=None):
             trail.append(("cvc5-q", "unsat", round(time.time() - jq.t0, 3)))
             out.update(verdict="unsat", backend="cvc5-q", time=time.time() - t_start, model=None, trail=trail,
                        ninst=ninst, gen_time=gen, text=None)
+            return out
+        if z3_only:
+            # regular-language obligations: z3 only, as a killable process
+            r = run_z3_cli(qf_text, budgets.get("z3_cli_t", 120))
+            trail.append(("z3-cli", r[0], round(r[1], 3)))
+            out.update(verdict=r[0], backend="z3", time=time.time() - t_start, model=r[2], trail=trail,
+                       reason=r[3], ninst=ninst, gen_time=gen, text=qf_text)
             return out
         r = run_z3(qf_text, budgets.get("z3_quick", Z3_QUICK))
         trail.append(("z3", r[0], round(r[1], 3)))
@@ -354,8 +390,23 @@ def solve_vcs(vcs, rounds=2, jobs=None):
     if os.environ.get("PYVC_SERIAL"):
         out = [_solve_vc(i) for i in todo]
     else:
-        with mp.get_context("fork").Pool(min(n, len(todo))) as p:
-            out = p.map(_solve_vc, todo, chunksize=1)
+        # hard wall-clock limit: a solver call that ignores its own timeout must not hang the check
+        hard = float(os.environ.get("PYVC_HARD_LIMIT", "900"))
+        t0 = time.time()
+        pool = mp.get_context("fork").Pool(min(n, len(todo)))
+        out = []
+        try:
+            pending = [(i, pool.apply_async(_solve_vc, (i,))) for i in todo]
+            for i, ar in pending:
+                try:
+                    out.append(ar.get(timeout=max(1.0, hard - (time.time() - t0))))
+                except mp.TimeoutError:
+                    out.append({"name": vcs[i].name, "verdict": "unknown", "backend": "none", "time": hard, "idx": i,
+                                "ninst": 0, "gen_time": 0.0, "model": None, "trail": [("hard-limit", "unknown", hard)],
+                                "reason": "solver did not return within the hard wall-clock limit"})
+        finally:
+            pool.terminate()
+            pool.join()
     for r in out:
         results[r["idx"]] = r
     return results
